@@ -22,7 +22,7 @@ TECHNIQUE = ('runtime monitoring: reference-model oracle (independent scheme '
              'on every atom\'s centre / peripheral / group name and every '
              'normalised bond; exception-class oracle for the failure clause')
 RULE = ('molecules: exhaustive C/O (N for Benson/PPY) skeletons up to 3 '
-        '(thorough 4) heavy atoms with radicals, curated motif list (~230), '
+        '(thorough 4) heavy atoms with radicals, curated motif list (~300) and pairs of motifs joined into one molecule, '
         'random grown molecules to 10 (thorough 14) heavy atoms, adsorbates '
         'on Pt (Ru for XieGA2022), molecules outside the vocabulary; schemes: '
         'the 9 shipped ones and generated synthetic schemes (overlapping / '
@@ -323,7 +323,8 @@ def molecules_for(ctx, spec):
     q = ctx.tier == 'quick'
     pl = molecules.pool(ctx.seed, n_random=40 if q else 500,
                         n_ads=30 if q else 400, metal=metal, nitrogen=nitro,
-                        max_heavy=10 if q else 14)
+                        max_heavy=10 if q else 14,
+                        n_joined=250 if q else 3000)
     pl = pl + small_pool(ctx.tier, nitro) + molecules.OUTSIDE
     if name == 'synthetic':
         pl = [s for s in pl if 'Pt' not in s and 'Ru' not in s and 'N' not in
